@@ -72,15 +72,26 @@ pub fn run_stream(segments: &[Vec<u8>], burst: usize) -> Obs {
 /// sends without reading) and everything afterwards.  What the application sees and what is
 /// eventually written must not depend on that.
 pub fn run_stream_with(segments: &[Vec<u8>], burst: usize, block_writes: bool) -> Obs {
+    run_stream_env(segments, burst, block_writes, false)
+}
+
+/// `hold_first`: the first request's handler does not answer until all input has been delivered,
+/// so everything behind it is decoded and queued (or rejected) while a request is in flight.
+pub fn run_stream_env(segments: &[Vec<u8>], burst: usize, block_writes: bool, hold_first: bool) -> Obs {
     let segs: Vec<Vec<u8>> = segments.to_vec();
     run_virtual(async move {
-        let w = world(vec![], 0);
+        let w = if hold_first {
+            world(vec![crate::world::svc::Prog { post_gate: Some(0), ..Default::default() }], 1)
+        } else {
+            world(vec![], 0)
+        };
         let (mut d, io) = open_h1(&ConnCfg::persistent(), w.clone()).await;
         if block_writes {
             io.set_credit(0);
         }
         let mut livelock = false;
-        livelock |= settle(&mut d, 10_000).await.is_none();
+        let cap = if hold_first { 200 } else { 10_000 };
+        livelock |= settle(&mut d, cap).await.is_none();
         let mut i = 0;
         while i < segs.len() {
             // `burst` segments become readable before the connection is polled again
@@ -88,7 +99,7 @@ pub fn run_stream_with(segments: &[Vec<u8>], burst: usize, block_writes: bool) -
                 io.push(s);
             }
             i += burst.max(1);
-            livelock |= settle(&mut d, 10_000).await.is_none();
+            livelock |= settle(&mut d, cap).await.is_none();
             if std::env::var("AVMON_DEBUG").is_ok() {
                 eprintln!("--- after seg {i}/{}: done={} polls={} out={} reqs={} read={} pending_in={}", segs.len(), d.done(), d.polls, io.out_len(), w.borrow().reqs.len(), io.bytes_read(), io.pending_in());
             }
@@ -98,6 +109,10 @@ pub fn run_stream_with(segments: &[Vec<u8>], burst: usize, block_writes: bool) -
         }
         if block_writes {
             io.set_credit(usize::MAX);
+            livelock |= settle(&mut d, 10_000).await.is_none();
+        }
+        if hold_first {
+            crate::world::svc::open_gate(&w, 0, 1_000_000);
             livelock |= settle(&mut d, 10_000).await.is_none();
         }
         io.eof();
@@ -310,6 +325,8 @@ impl RefReq {
 /// Metamorphic digest: what must not depend on segmentation.
 fn digest(obs: &Obs, rp: &RefParse) -> Obs {
     let mut o = obs.clone();
+    // self-wake spinning behind a pending handler is counted, not part of the observation
+    o.livelock = false;
     for r in o.resps.iter_mut() {
         if r.1.is_none() {
             r.0 /= 100; // which 4xx an error response carries may depend on where parsing stopped
@@ -340,16 +357,17 @@ struct Case<'a> {
     burst: usize,
     intended: Option<&'static str>,
     block_writes: bool,
+    hold_first: bool,
 }
 
 fn replay_json(c: &Case) -> serde_json::Value {
-    json!({"stream": esc(c.stream), "cuts": c.cuts, "burst": c.burst, "block_writes": c.block_writes})
+    json!({"stream": esc(c.stream), "cuts": c.cuts, "burst": c.burst, "block_writes": c.block_writes, "hold_first": c.hold_first})
 }
 
 fn eval_case(c: &Case, rp: &RefParse, baseline: Option<&Obs>, rep: &mut Reporter) -> Option<Obs> {
     rep.eval();
     let segs = split_at_cuts(c.stream, &c.cuts);
-    let obs = match guard(|| run_stream_with(&segs, c.burst, c.block_writes)) {
+    let obs = match guard(|| run_stream_env(&segs, c.burst, c.block_writes, c.hold_first)) {
         Ok(o) => o,
         Err(p) => {
             rep.violation("panic", &panic_site(&p), &format!("panic while serving the stream: {p}"), replay_json(c));
@@ -361,6 +379,9 @@ fn eval_case(c: &Case, rp: &RefParse, baseline: Option<&Obs>, rep: &mut Reporter
     }
     if c.block_writes {
         rep.count("schedules_with_writes_blocked_during_input", 1);
+    }
+    if c.hold_first {
+        rep.count("schedules_with_first_handler_pending_during_input", 1);
     }
     for cut in &c.cuts {
         rep.count(&format!("cut:{}", h1_req::cut_class(rp, c.stream, *cut)), 1);
@@ -468,9 +489,10 @@ pub fn run(ctx: &Ctx, rep: &mut Reporter) {
         let cuts: Vec<usize> = r["cuts"].as_array().map(|a| a.iter().filter_map(|x| x.as_u64().map(|x| x as usize)).collect()).unwrap_or_default();
         let burst = r["burst"].as_u64().unwrap_or(1) as usize;
         let rp = h1_req::parse_stream(&stream);
-        let base = eval_case(&Case { stream: &stream, cuts: vec![], burst: 1, intended: None, block_writes: false }, &rp, None, rep);
+        let base = eval_case(&Case { stream: &stream, cuts: vec![], burst: 1, intended: None, block_writes: false, hold_first: false }, &rp, None, rep);
         let block_writes = r["block_writes"].as_bool().unwrap_or(false);
-        eval_case(&Case { stream: &stream, cuts, burst, intended: None, block_writes }, &rp, base.as_ref(), rep);
+        let hold_first = r["hold_first"].as_bool().unwrap_or(false);
+        eval_case(&Case { stream: &stream, cuts, burst, intended: None, block_writes, hold_first }, &rp, base.as_ref(), rep);
         rep.sig("replay-a");
         rep.sig("replay-b");
         return;
@@ -486,23 +508,26 @@ pub fn run(ctx: &Ctx, rep: &mut Reporter) {
         if !self_check(&rp, *intended, rep) {
             continue;
         }
-        let base = eval_case(&Case { stream, cuts: vec![], burst: 1, intended: *intended, block_writes: false }, &rp, None, rep);
+        let base = eval_case(&Case { stream, cuts: vec![], burst: 1, intended: *intended, block_writes: false, hold_first: false }, &rp, None, rep);
         let Some(base) = base else { continue };
         let n = stream.len();
         // all-1-byte reads
         idx += 1;
         if ctx.mine(idx) {
             let cuts: Vec<usize> = (1..n).collect();
-            eval_case(&Case { stream, cuts: cuts.clone(), burst: 1, intended: *intended, block_writes: false }, &rp, Some(&base), rep);
+            eval_case(&Case { stream, cuts: cuts.clone(), burst: 1, intended: *intended, block_writes: false, hold_first: false }, &rp, Some(&base), rep);
             rep.sig(&shape_sig(&rp, &["all-1-byte"]));
-            eval_case(&Case { stream, cuts, burst: 1, intended: *intended, block_writes: true }, &rp, Some(&base), rep);
-            eval_case(&Case { stream, cuts: vec![], burst: 1, intended: *intended, block_writes: true }, &rp, Some(&base), rep);
+            eval_case(&Case { stream, cuts, burst: 1, intended: *intended, block_writes: true, hold_first: false }, &rp, Some(&base), rep);
+            eval_case(&Case { stream, cuts: vec![], burst: 1, intended: *intended, block_writes: true, hold_first: false }, &rp, Some(&base), rep);
             rep.sig(&shape_sig(&rp, &["writes-blocked"]));
+            eval_case(&Case { stream, cuts: vec![], burst: 1, intended: *intended, block_writes: false, hold_first: true }, &rp, Some(&base), rep);
+            eval_case(&Case { stream, cuts: (1..n).collect(), burst: 1, intended: *intended, block_writes: false, hold_first: true }, &rp, Some(&base), rep);
+            rep.sig(&shape_sig(&rp, &["first-handler-pending"]));
         }
         for a in 1..n {
             idx += 1;
             if ctx.mine(idx) {
-                eval_case(&Case { stream, cuts: vec![a], burst: 1, intended: *intended, block_writes: false }, &rp, Some(&base), rep);
+                eval_case(&Case { stream, cuts: vec![a], burst: 1, intended: *intended, block_writes: false, hold_first: false }, &rp, Some(&base), rep);
                 rep.sig(&shape_sig(&rp, &[h1_req::cut_class(&rp, stream, a)]));
             }
             if pairs {
@@ -515,7 +540,7 @@ pub fn run(ctx: &Ctx, rep: &mut Reporter) {
                         complete = false;
                         break;
                     }
-                    eval_case(&Case { stream, cuts: vec![a, b], burst: 1, intended: *intended, block_writes: false }, &rp, Some(&base), rep);
+                    eval_case(&Case { stream, cuts: vec![a, b], burst: 1, intended: *intended, block_writes: false, hold_first: false }, &rp, Some(&base), rep);
                     rep.sig(&shape_sig(&rp, &[h1_req::cut_class(&rp, stream, a), h1_req::cut_class(&rp, stream, b)]));
                 }
             }
@@ -551,7 +576,7 @@ pub fn run(ctx: &Ctx, rep: &mut Reporter) {
             }
             continue;
         }
-        let base = eval_case(&Case { stream: &p.bytes, cuts: vec![], burst: 1, intended: p.intended_bad, block_writes: false }, &rp, None, rep);
+        let base = eval_case(&Case { stream: &p.bytes, cuts: vec![], burst: 1, intended: p.intended_bad, block_writes: false, hold_first: false }, &rp, None, rep);
         let Some(base) = base else { continue };
         let nsched = 3;
         for s in 0..nsched {
@@ -577,7 +602,7 @@ pub fn run(ctx: &Ctx, rep: &mut Reporter) {
             let burst = if rng.chance(1, 4) { rng.range(2, 4) } else { 1 };
             let classes: Vec<&str> = cuts.iter().take(64).map(|c| h1_req::cut_class(&rp, &p.bytes, *c)).collect();
             // the last schedule of each case runs against a peer that does not read while it sends
-            eval_case(&Case { stream: &p.bytes, cuts: cuts.clone(), burst, intended: p.intended_bad, block_writes: s + 1 == nsched }, &rp, Some(&base), rep);
+            eval_case(&Case { stream: &p.bytes, cuts: cuts.clone(), burst, intended: p.intended_bad, block_writes: s + 1 == nsched && k % 2 == 0, hold_first: s + 1 == nsched && k % 2 == 1 }, &rp, Some(&base), rep);
             rep.sig(&shape_sig(&rp, &classes));
             if k == 0 && s == 1 {
                 rep.sample("random-pipeline", json!({"stream": esc_short(&p.bytes, 600), "cuts": cuts, "burst": burst, "reference": reject_sig(&rp), "requests_in_reference": rp.reqs.len()}));
@@ -602,10 +627,10 @@ pub fn run(ctx: &Ctx, rep: &mut Reporter) {
         let cut = rng.range(1, p.bytes.len());
         let stream = &p.bytes[..cut];
         let rp = h1_req::parse_stream(stream);
-        let base = eval_case(&Case { stream, cuts: vec![], burst: 1, intended: None, block_writes: false }, &rp, None, rep);
+        let base = eval_case(&Case { stream, cuts: vec![], burst: 1, intended: None, block_writes: false, hold_first: false }, &rp, None, rep);
         let Some(base) = base else { continue };
         let cuts = rng.cuts(stream.len(), 6);
-        eval_case(&Case { stream, cuts, burst: 1, intended: None, block_writes: false }, &rp, Some(&base), rep);
+        eval_case(&Case { stream, cuts, burst: 1, intended: None, block_writes: false, hold_first: false }, &rp, Some(&base), rep);
         rep.sig(&format!("trunc|{}|{}", reject_sig(&rp), h1_req::cut_class(&h1_req::parse_stream(&p.bytes), &p.bytes, cut.min(p.bytes.len() - 1).max(1))));
         rep.count("truncated_streams", 1);
     }
